@@ -271,7 +271,27 @@ func (e *provEnv) compute(v ssa.Value) *provInfo {
 		return i
 	case *ssa.Const, *ssa.Function, *ssa.Builtin:
 		return newInfo()
-	case *ssa.MakeSlice, *ssa.MakeMap, *ssa.MakeChan, *ssa.MakeClosure:
+	case *ssa.MakeSlice:
+		i := freshInfo()
+		// a fresh slice OF SLICES holds what is stored into its elements: dst[k] = append(nil, src[k]...) makes
+		// dst share src's inner slices
+		if st, ok := x.Type().Underlying().(*types.Slice); ok {
+			if _, inner := st.Elem().Underlying().(*types.Slice); inner && x.Referrers() != nil {
+				for _, r := range *x.Referrers() {
+					ia, ok := r.(*ssa.IndexAddr)
+					if !ok || ia.Referrers() == nil {
+						continue
+					}
+					for _, rr := range *ia.Referrers() {
+						if stv, ok := rr.(*ssa.Store); ok && stv.Addr == ssa.Value(ia) {
+							i.add(e.of(stv.Val))
+						}
+					}
+				}
+			}
+		}
+		return i
+	case *ssa.MakeMap, *ssa.MakeChan, *ssa.MakeClosure:
 		return freshInfo()
 	case *ssa.FieldAddr:
 		return e.withProt(e.of(x.X), x.X.Type(), fieldName(x.X.Type(), x.Field))
@@ -355,6 +375,15 @@ func (e *provEnv) compute(v ssa.Value) *provInfo {
 				i := newInfo()
 				i.add(e.of(x.Call.Args[0]))
 				i.bases[base{kind: bkFresh}] = true
+				// appending elements that themselves hold pointers (slices of slices) copies the pointers:
+				// the result's contents then alias the source's elements
+				// (only for elements that ARE slices: geometry values also hold pointers, but to storage
+				// that is immutable by the library's convention, and copying them is the accepted copy)
+				if st, ok := x.Type().Underlying().(*types.Slice); ok && len(x.Call.Args) > 1 {
+					if _, inner := st.Elem().Underlying().(*types.Slice); inner {
+						i.add(e.of(x.Call.Args[1]))
+					}
+				}
 				return i
 			case "min", "max", "len", "cap":
 				return newInfo()
